@@ -103,6 +103,14 @@ CHECKS = {
              "projection onto the attributes listed in the property must be identical, to_yaml/to_json must be a fixpoint, and verdicts on probe frames must agree.",
         note="Trusted: projection function lists exactly the property's attributes; exec of the generated script.",
         ref="3/C12"),
+    "C19": dict(
+        technique="exhaustive enumeration of (predicate, data vector, index kind, level) with metamorphic relations between option variants",
+        text="6 predicates x every vector of length <= 3 (thorough 4) over {1,2,3,-1,null} x 3 index kinds x {SeriesSchema, Column, Index, DataFrame} levels: element_wise == "
+             "vectorised map; ignore_na hides nulls from the function and never fails them (and ignore_na=False shows them); n_failure_cases never changes the verdict and "
+             "reports a subset; raise_warning never raises and warns iff the plain check fails (incl. raising functions); groupby hands over exactly the groups (str / list / "
+             "callable, restricted by groups); aliases equal and behave as their canonical checks; frame-level ignore_na; polars ignore_na / raise_warning.",
+        note="Trusted: nothing but the relations themselves (no expected values).",
+        ref="3/C19"),
     "C20": dict(
         technique="exhaustive enumeration of (schema, table, head, tail, sample, random_state) within bounds; differential oracle against the explicitly subsampled frame",
         text="Frames of <=4 rows with duplicate rows / duplicate and string index labels / failing first, middle, last rows x row-level constraints x every (head, tail, sample) "
@@ -110,6 +118,22 @@ CHECKS = {
              "validating the frame built from the selected positions, the result must be the whole object, repeated calls agree, head=len equals no option.",
         note="Trusted: position of sampled rows obtained from the library's own sampler on a row-number column with the same seed.",
         ref="3/C20"),
+    "C14": dict(
+        technique="exhaustive enumeration of all columns over per-dtype extreme-value pools up to a length bound x index alphabet",
+        text="12 value pools (int64 incl. +-(2**53+1) and min/max, float64 incl. +-inf/-0.0/NaN, bool, str, mixed object, datetime at the ns bounds, tz-aware datetime, "
+             "timedelta, categorical with an unused category, Int64, uint8, float32) x every column of length <= 3 (thorough 4) x {default, named, string, datetime, MultiIndex} "
+             "index, as a frame column and as a Series: infer_schema(D) must accept D and return equal values, inferred ge/le bounds must be D's exact min/max in D's own "
+             "dtype, and the YAML / JSON / script round trips of the inferred schema must give the same verdict.",
+        note="Trusted: pandas' own min/max and assert_*_equal (values, not dtype) as the notion of 'unchanged values'.",
+        ref="3/C14"),
+    "C17": dict(
+        technique="exhaustive product of signature shape x designation x call shape x options x frame per decorator against a reference wrapper",
+        text="12 generated signature shapes (plain, extra positional, defaults, *args, **kwargs, defaulted frame, method, classmethod, staticmethod, async, pre-wrapped) x "
+             "obj_getter None/int/str x positional/keyword/mixed/default-not-passed calls x {no option, head, tail, lazy, head+lazy} x 5 frames for check_input; tuple/list/dict/"
+             "callable outputs x sync/async for check_output; check_io with all frame pairs; check_types over 9 annotation shapes: the instrumented body must run iff the "
+             "designated input validates (with the given options), receive the parsed object, and the wrapper must return/raise what the reference wrapper does.",
+        note="Trusted: the reference wrapper (inspect.signature binding + schema.validate with the same options).",
+        ref="3/C17"),
     "C18": dict(
         technique="explicit-state BFS over config_context histories + exhaustive enumeration of environment settings and depth decomposition",
         text="BFS over all enter/exit/exit-by-exception/probe histories of the real config_context up to nesting 3 (thorough 4), each "
